@@ -286,6 +286,52 @@ func (c *Conn) Release(n int) {
 	c.out.mu.Unlock()
 }
 
+// WritePieces writes p like Write, but the peer can read it only piece by piece: the bytes before cuts[0] at
+// once, the bytes up to each following cut one gap (virtual time) after the previous piece, the rest one gap
+// after the last cut. Nothing is lost or reordered; a reader that wants more than a piece sees a short read and
+// has to call Read again. cuts are increasing offsets inside p; out-of-range cuts are ignored. On an end that is
+// already gated (Gate, or an earlier WritePieces still in progress) or has a write window it is a plain Write.
+func (c *Conn) WritePieces(p []byte, cuts []int, gap time.Duration) (int, error) {
+	h := c.out
+	var ks []int
+	for _, k := range cuts {
+		if k > 0 && k < len(p) && (len(ks) == 0 || k > ks[len(ks)-1]) {
+			ks = append(ks, k)
+		}
+	}
+	h.mu.Lock()
+	if len(ks) == 0 || h.gated || h.window > 0 || c.closed || h.wclosed || h.rclosed || h.reset {
+		h.mu.Unlock()
+		return c.Write(p)
+	}
+	// what is buffered already stays readable, then the first piece
+	h.gated = true
+	h.released = len(h.buf) + ks[0]
+	h.buf = append(h.buf, p...)
+	h.total += len(p)
+	if h.keep {
+		h.journal = append(h.journal, p...)
+	}
+	h.cond.Broadcast()
+	h.mu.Unlock()
+	for i := range ks {
+		i := i
+		time.AfterFunc(time.Duration(i+1)*gap, func() {
+			h.mu.Lock()
+			if i+1 < len(ks) {
+				h.released += ks[i+1] - ks[i]
+			} else {
+				// last piece: everything written meanwhile becomes readable too
+				h.gated = false
+				h.released = 0
+			}
+			h.cond.Broadcast()
+			h.mu.Unlock()
+		})
+	}
+	return len(p), nil
+}
+
 // Withheld is the number of bytes written but not yet released to the peer.
 func (c *Conn) Withheld() int {
 	c.out.mu.Lock()
